@@ -7,6 +7,7 @@ from props import _ep as E
 from vlib.coqfmt import cfloat, clist, cpair
 
 ENV_BY_TIER = {"quick": {"NUMBA_DISABLE_JIT": "1"}, "thorough": {}}
+COQ_TARGETS = ["props/C05.vo", "model/Phasing.vo"]   # the shared infer-switch tie evaluates model/Phasing.v
 
 RULE = ("(a) _damp / _rescale called directly on generated (posterior, message, step) and (posterior, max_shape) "
         "tuples: proper, zero, boundary (1+alpha == s, == 1/s) and improper (assertion) ones; (b) tape cases as in "
@@ -205,6 +206,22 @@ def run(ctx, model_ok=True):
         c = date_case(ctx.rng)
         r = date_run(ctx, c)
         ctx.case({"kind": c["kind"], "opts": c["opts"], "result": r}, nontrivial=r is not None, kind="date/" + c["kind"])
+    # the phase switch of infer() against the model (shared with C23), and its range on the fit object
+    from props import c23
+    items = []
+    for _ in range(ctx.n(10, 80)):
+        c = c23.infer_case(ctx.rng)
+        obs = c23.run_infer(c)
+        if obs is None:
+            continue
+        items.append((c, obs))
+        ph = np.asarray(obs["ep"].mutation_phase, dtype=float)
+        ctx.case({"kind": c["kind"], "opts": c["opts"], "switch": True}, nontrivial=bool(np.any(ph < 1)), kind="infer-switch")
+        if not np.all(np.isnan(ph) | ((ph >= 0.5) & (ph <= 1.0))):
+            ctx.oracle_fail("phase-out-of-range:infer", "mutation_phase %r" % ph[~(np.isnan(ph) | ((ph >= 0.5) & (ph <= 1.0)))][:5].tolist(),
+                            {"case": c, "where": "infer"})
+    if model_ok:
+        c23.corr_infer(ctx, items)
 
 
 def search(ctx):
@@ -230,6 +247,13 @@ def replay(ctx, data):
         except AssertionError:
             return True
     case = payload["case"]
+    if payload.get("where") == "infer":
+        from props import c23
+        obs = c23.run_infer(case)
+        if obs is None:
+            return True
+        ph = np.asarray(obs["ep"].mutation_phase, dtype=float)
+        return bool(np.all(np.isnan(ph) | ((ph >= 0.5) & (ph <= 1.0))))
     if payload.get("where") == "tape":
         rec = E.record_all([case])[0]
         S = case["opts"]["max_shape"]
